@@ -236,3 +236,46 @@ def program_strategy(max_captions=4):
         return {"drop": draw(st.booleans()), "double": draw(st.sampled_from(["none", "all", "random"])),
                 "captions": caps}
     return build()
+
+
+# ------------------------------------------------------------------ reader objects with a past
+
+REUSE_KINDS = [None, None, None, "ok", "flash", "badtime", "same"]
+
+
+def reuse_strategy():
+    """How the SCCReader object was used before the read under test:
+    None (fresh) | ["ok", row] (read a pop-on document whose last row is `row`) | ["flash"]
+    (a document rejected with a timing error) | ["badtime"] (rejected for a malformed timecode
+    after a caption was stored) | ["same"] (the very same document, read once before)."""
+    return st.one_of(st.none(), st.none(), st.none(),
+                     st.tuples(st.just("ok"), st.integers(1, 14)).map(list),
+                     st.just(["flash"]), st.just(["badtime"]), st.just(["same"]))
+
+
+def used_reader(reuse, doc=None):
+    """An SCCReader that may already have read another document (outcome ignored)."""
+    from pycaption import SCCReader
+    r = SCCReader()
+    if not reuse:
+        return r
+    kind = reuse[0]
+    if kind == "ok":
+        row = reuse[1]
+        prev = "\n".join([HEADER, "",
+                          "00:00:01:00\t94ae 94ae 9420 9420 " + R.pac(row, 4) + " " + R.pac(row, 4)
+                          + " 4c45 4654 204f 5645 d280 942f 942f", "", "00:00:03:00\t942c 942c", ""])
+    elif kind == "flash":
+        prev = "\n".join([HEADER, "", "00:00:01:00\t9420 9470 4c45 4654 204f 5645 d280 942f 942c", ""])
+    elif kind == "badtime":
+        prev = "\n".join([HEADER, "", "00:00:01:00\t9420 9470 4c45 4654 204f 5645 d280 942f", "",
+                          "00:00:03:00\t942c", "", "00:00:04\t9420 9470 4f4e 4580 942f", ""])
+    elif kind == "same":
+        prev = doc
+    else:
+        return r
+    try:
+        r.read(prev)
+    except Exception:  # noqa  (the earlier document is not what is being judged)
+        pass
+    return r
